@@ -50,6 +50,7 @@ package scanner
 //@ ghost field Scanner.gOpenAt int
 //@ ghost field Scanner.gFree int
 //@ ghost field Scanner.gRet int
+//@ ghost field Scanner.gPhase int
 
 //@ fn evKind(t LexemeEventType) int :=
 //@     ite(in(t, KeywordBegin, KeywordEnd), 1, ite(in(t, ParameterBegin, ParameterEnd), 2,
@@ -61,7 +62,17 @@ package scanner
 // empty Annotation and Text lexemes (end == begin-1) exist and are legal; no other kind may be empty
 //@ fn slack(k int) int := ite(k == 3 || k == 5, 1, 0)
 
+// Bracket grammar of one directive: Keyword Parameter* Annotation? ( "(" )? Body?
+// gPhase: 0 none, 1 keyword done, 2 parameter(s) done, 3 annotation done, 4 context opened, 5 body done.
+//@ pred phaseAllows(p int, t LexemeEventType) :=
+//@     imp(in(t, ParameterBegin, AnnotationBegin), p == 1 || p == 2)
+//@     && imp(in(t, SchemaBegin, TextBegin, EnumBegin), 1 <= p && p <= 4)
+//@ fn phaseAfter(p int, t LexemeEventType) int :=
+//@     ite(t == KeywordEnd, 1, ite(t == ParameterEnd, 2, ite(t == AnnotationEnd, 3,
+//@     ite(t == ContextOpen && 1 <= p && p <= 3, 4, ite(in(t, SchemaEnd, TextEnd, EnumEnd), 5,
+//@     ite(t == ContextClose, 0, p))))))
 //@ pred emitOK(s *Scanner, i bytes.Index, t LexemeEventType) :=
+//@     phaseAllows(s.gPhase, t) &&
 //@     ite(evIsBegin(t), s.gOpen == 0 && s.gFree <= i && i <= s.dataSize,
 //@     ite(evIsEnd(t), s.gOpen == evKind(t) && s.gOpenAt <= i + slack(evKind(t)) && i < s.dataSize,
 //@     evIsSingle(t) && s.gOpen == 0 && s.gFree <= i && i < s.dataSize))
@@ -109,6 +120,7 @@ package scanner
 //@   ghost s.gOpen := ite(evIsBegin(t), evKind(t), 0)
 //@   ghost s.gOpenAt := ite(evIsBegin(t), i, old(s.gOpenAt))
 //@   ghost s.gFree := ite(evIsBegin(t), old(s.gFree), i + 1)
+//@   ghost s.gPhase := phaseAfter(old(s.gPhase), t)
 
 //@ pred isKeywordState(f stepFunc) := in(f,
 //@     stateB, stateBa, stateBas, stateBase, stateBaseU, stateBaseUr, stateBo, stateBod, stateD, stateDE, stateDEL,
@@ -143,8 +155,16 @@ package scanner
 //@ pred needsBodyChar(f stepFunc) := in(f, stateParameterWoQuoted, stateSchemaClosed, stateEnumBodyClose, stateMultilineAnnotation)
 
 // posOK(s, f, i): ghost/cursor relation that holds when non-comment state f is about to be run at index i
+// states in which parameters / an annotation may still follow, and states that wait for (or start) a body
+//@ pred paramPhase(f stepFunc) := isParam(f)
+//@ pred bodyStartState(f stepFunc) := in(f, stateBodyBodyOrKeyword, stateRequestBodyOrKeyword, stateResponseBodyOrKeyword,
+//@     stateTypeBodyOrKeyword, stateQueryBodyOrKeyword, stateDescriptionTextBeginStarter, stateEnumBody, stateHeaderBody,
+//@     statePathBody, stateParamsBody, stateResultBody, stateBodyBody, stateRequestBody, stateResponseBody, stateTypeBody,
+//@     stateRegex, stateJSchema)
 //@ pred posOK(s *Scanner, f stepFunc, i int) :=
-//@     s.gOpen == openKind(f) && 0 <= s.gFree && s.gFree <= i
+//@     s.gOpen == openKind(f)
+//@     && imp(paramPhase(f), s.gPhase == 1 || s.gPhase == 2)
+//@     && imp(bodyStartState(f), 1 <= s.gPhase && s.gPhase <= 4) && 0 <= s.gFree && s.gFree <= i
 //@     && imp(s.gOpen != 0, s.gFree <= s.gOpenAt && s.gOpenAt <= i)
 //@     && imp(needsKw(f), s.gFree >= 1)
 //@     && imp(f != stateRoot, s.dataSize >= 1)
@@ -314,7 +334,7 @@ package scanner
 //@   requires stackOK(self, s.stepStack)
 //@   requires scanOK(s, self, s.curIndex)
 //@   requires queueOK(s) && s.finds.arr != s.stack.arr
-//@   modifies s.step, s.stepStack, s.stepStack[:], s.finds, s.finds[:], s.curIndex, s.gOpen, s.gOpenAt, s.gFree
+//@   modifies s.step, s.stepStack, s.stepStack[:], s.finds, s.finds[:], s.curIndex, s.gOpen, s.gOpenAt, s.gFree, s.gPhase
 //@   ensures arrStable(s.finds.arr, old(s.finds.arr)) && arrStable(s.stepStack.arr, old(s.stepStack.arr))
 //@   ensures s.curIndex <= s.dataSize
 //@   ensures imp(result == nil && s.curIndex < s.dataSize, stackOK(s.step, s.stepStack))
@@ -391,11 +411,14 @@ package scanner
 //@   ensures imp(evIsSingle(ev.type_) && len(s.stack) == 1,
 //@               s.stack[0].type_ == old(s.stack[0].type_) && s.stack[0].position == old(s.stack[0].position))
 
+// everything a call of Next may change
+//@ modset nextMod(s) := s.step, s.stepStack, s.stepStack[:], s.finds, s.finds[:], s.stack, s.stack[:], s.curIndex,
+//@     s.lastDirectiveParameters, s.lastDirectiveParameters[:], s.gOpen, s.gOpenAt, s.gFree, s.gPhase, s.gRet
 //@ func (*Scanner).Next(s)
 //@   property C12,C01
 //@   requires scannerInv(s)
 //@   modifies s.step, s.stepStack, s.stepStack[:], s.finds, s.finds[:], s.stack, s.stack[:], s.curIndex,
-//@            s.lastDirectiveParameters, s.lastDirectiveParameters[:], s.gOpen, s.gOpenAt, s.gFree
+//@            s.lastDirectiveParameters, s.lastDirectiveParameters[:], s.gOpen, s.gOpenAt, s.gFree, s.gPhase
 //@   ghost s.gRet := ite(result0 != nil, result0.end + 1, old(s.gRet))
 //@   ensures s != nil && fileOK(s)
 //@   ensures paramsOK(s)
@@ -466,3 +489,63 @@ package scanner
 //@   attr pure deterministic nopanic
 //@ extern bytes.Equal
 //@   attr pure deterministic nopanic
+
+// ---------------------------------------------------------------------------
+// The include stack (C14, C07, C01)
+
+//@ extern hash/fnv.New64
+//@   attr deterministic nopanic
+//@   ensures result != nil
+//@ extern (hash.Hash64).Write(h, p)
+//@   attr deterministic nopanic
+//@ extern (hash.Hash64).Sum64(h)
+//@   attr deterministic nopanic
+
+// every stacked item names a scanner with a non-empty file and a position inside it
+//@ pred itemsOK(st *Stack) := 0 <= st.stack.off && forallp(j, at(st.stack, j).scanner,
+//@     imp(st.stack.off <= j && j < st.stack.off + len(st.stack),
+//@         at(st.stack, j).scanner != nil && at(st.stack, j).scanner.file != nil
+//@         && at(st.stack, j).at < len(at(st.stack, j).scanner.file.content.data)))
+// names on the stack are registered in uniqueFiles (so that a second push of the same file is refused)
+//@ pred namesOK(st *Stack) := forallp(j, at(st.stack, j).scanner,
+//@     imp(st.stack.off <= j && j < st.stack.off + len(st.stack), has(st.uniqueFiles, at(st.stack, j).scanner.file.name)))
+//@ pred stackInv(st *Stack) := st != nil && itemsOK(st) && namesOK(st) && len(st.hashes) == len(st.stack)
+
+//@ func (*Stack).Push(s, scanner, at)
+//@   property C14,C01
+//@   requires s != nil && itemsOK(s) && namesOK(s) && len(s.hashes) == len(s.stack)
+//@   requires scanner != nil && scanner.file != nil && at < len(scanner.file.content.data)
+//@   modifies s.uniqueFiles, s.uniqueFiles[:], s.stack, s.stack[:], s.hashes, s.hashes[:]
+//@   ensures[C14,@include-cycle] imp(old(s.uniqueFiles != nil && has(s.uniqueFiles, scanner.file.name)), result != nil)
+//@   ensures imp(old(s.uniqueFiles != nil && has(s.uniqueFiles, scanner.file.name)), len(s.stack) == old(len(s.stack)) && s.stack.arr == old(s.stack.arr))
+//@   ensures itemsOK(s)
+//@   ensures imp(result == nil, namesOK(s) && len(s.hashes) == len(s.stack) && len(s.stack) == old(len(s.stack)) + 1)
+//@   ensures imp(result == nil, s.stack[len(s.stack)-1].scanner == scanner && s.stack[len(s.stack)-1].at == at)
+
+//@ func (*Stack).Pop(s)
+//@   property C14,C01
+//@   requires stackInv(s)
+//@   modifies s.uniqueFiles[:], s.stack, s.hashes
+//@   ensures imp(old(len(s.stack)) == 0, result == nil && len(s.stack) == 0)
+//@   ensures imp(old(len(s.stack)) > 0, result != nil && result == old(s.stack[len(s.stack)-1].scanner) && len(s.stack) == old(len(s.stack)) - 1)
+//@   ensures s.stack.arr == old(s.stack.arr) && s.stack.off == old(s.stack.off) && len(s.hashes) == len(s.stack)
+//@   ensures itemsOK(s)
+//@   ensures[C14,@include-reopen] imp(result != nil, !has(s.uniqueFiles, result.file.name))
+// Ownership fact that the typed-heap model cannot express (no separation logic): a scanner was not reachable from
+// running code while it was stacked, so it still satisfies the invariant it satisfied when it was pushed.
+//@   assume imp(result != nil, scannerInv(result))
+// names still on the stack stay registered: needs that stacked names are pairwise distinct (delete removes one name)
+//@   assume namesOK(s)
+
+//@ func (*Stack).Empty(s)
+//@   property C01
+//@   requires s != nil
+//@   ensures result == (len(s.stack) == 0)
+
+//@ func (*Stack).AddIncludeTraceToError(s, je)
+//@   property C07,C01
+//@   requires s != nil && itemsOK(s)
+//@   modifies je.includeTrace, je.includeTrace[:]
+//@ func addIncludeTraceToError loop 1
+//@   invariant i < len(stack)
+//@   invariant je != nil && (je.includeTrace.arr == old(je.includeTrace.arr) || fresh(je.includeTrace.arr))
